@@ -36,6 +36,18 @@ type entry struct {
 
 var box = orb.Bound{Min: orb.Point{-1, -1}, Max: orb.Point{2.5, 2.5}}
 
+type namedSimplifier struct {
+	name string
+	s    orb.Simplifier
+}
+
+var simplifiers = []namedSimplifier{
+	{"DouglasPeucker(0.5)", simplify.DouglasPeucker(0.5)}, {"DouglasPeucker(50)", simplify.DouglasPeucker(50)},
+	{"Radial(0.5)", simplify.Radial(planar.Distance, 0.5)}, {"Radial(50)", simplify.Radial(planar.Distance, 50)},
+	{"VisvalingamThreshold(0.5)", simplify.VisvalingamThreshold(0.5)}, {"VisvalingamThreshold(50)", simplify.VisvalingamThreshold(50)},
+	{"VisvalingamKeep(3)", simplify.VisvalingamKeep(3)}, {"Visvalingam(50,2)", simplify.Visvalingam(50, 2)},
+}
+
 func registry() []entry {
 	dp, rd, vis := simplify.DouglasPeucker(0.5), simplify.Radial(planar.Distance, 0.5), simplify.VisvalingamThreshold(0.5)
 	return []entry{
@@ -316,6 +328,48 @@ func main() {
 				}
 				if got, _ := v.(orb.Geometry); refgeom.Struct(got) != refgeom.Struct(want) {
 					c.Failf("collection-combination", "orb.Round(%s) = %v, member-wise %v", desc, got, want)
+				}
+			}
+		}
+		// typed vs generic for the simplifiers: Simplify(g) is what the method for g's kind returns, at the top
+		// level and for every member of a collection
+		for _, sp := range simplifiers {
+			var typed func(m orb.Geometry) orb.Geometry
+			typed = func(m orb.Geometry) orb.Geometry {
+				switch v := orb.Clone(m).(type) {
+				case orb.LineString:
+					return sp.s.LineString(v)
+				case orb.Ring:
+					return sp.s.Ring(v)
+				case orb.Polygon:
+					return sp.s.Polygon(v)
+				case orb.MultiLineString:
+					return sp.s.MultiLineString(v)
+				case orb.MultiPolygon:
+					return sp.s.MultiPolygon(v)
+				case orb.Collection:
+					return sp.s.Collection(v)
+				}
+				return nil
+			}
+			cmp := func(what string, m orb.Geometry) {
+				var want, got orb.Geometry
+				_, p1 := try(func() interface{} { want = typed(m); return nil })
+				_, p2 := try(func() interface{} { got = sp.s.Simplify(orb.Clone(m)); return nil })
+				if p1 != "" || p2 != "" || want == nil {
+					return // panics are reported above; value kinds have no typed method
+				}
+				if refgeom.Struct(got) != refgeom.Struct(want) && !(refgeom.Struct(want) == refgeom.Struct(refgeom.Normal(nil, false)) && got == nil) {
+					if wl := fmt.Sprint(want); got == nil && (wl == "[]" || wl == "[[]]") {
+						return // the generic entry point returns nil for an emptied geometry
+					}
+					c.Failf("typed-vs-generic", "%s.Simplify(%s %T %v) = %v, the %T method gives %v", sp.name, what, m, m, got, m, want)
+				}
+			}
+			cmp("", g)
+			if col, ok := g.(orb.Collection); ok {
+				for _, m := range col {
+					cmp("member", m)
 				}
 			}
 		}
